@@ -16,6 +16,34 @@ CHECKS = {
         technique="TLA+ model (Lbuf.tla) checked by TLC; state-graph replay into lbuf.c; trace validation"),
 }
 
+CHECKS["C10"] = dict(
+    level="model_checking",
+    text="TLC evaluates the reference semantics of Regex.tla (parser, engine-ordered parses with captures, pattern-set "
+         "layer) on every token sequence up to a size x every short line x all 8 flag combinations, checks inside the "
+         "spec that the ordered choice is a member of the declarative language and starts leftmost, and the expected "
+         "found/set-index/span/group spans are compared with rset_make/rset_find of the repository's objects; the "
+         "depth-limit hook decides where completeness is required.",
+    design="8/C10", technique="TLA+ reference matcher evaluated exhaustively by TLC; case tables replayed into rset.c/regex.c (M2)",
+    note="Trusted: TLC's evaluator, JSON case tables, reprobe.c, UTF-8 re-encoding in regexlib.py. Exhaustive only up to "
+         "the stated pattern/line sizes; longer patterns are a seeded sample.")
+CHECKS["C11"] = dict(
+    level="model_checking",
+    text="ParseRe/CountEst/EmitLen of Regex.tla are evaluated by TLC on every symbol string up to a length (plus seeded "
+         "longer and random strings); accept/reject and the reserved/used program sizes recorded by the regcomp hook "
+         "must equal the spec's, and every compiled pattern is matched against a family of lines on an ASan/UBSan "
+         "build with a time limit: offsets in bounds and on character boundaries.",
+    design="8/C11", technique="TLA+ transcription of the regex parser and size estimate checked by TLC; ASan probe (M2)",
+    note="Memory errors are observed through the sanitizer, not the spec. Known finding KF-nullable-loop (catastrophic "
+         "backtracking) is replayed from a corpus on every run.")
+CHECKS["C12"] = dict(
+    level="model_checking",
+    text="For 16 anchor combinations x all short literals x all short lines x 8 flags, TLC computes both the "
+         "transcription of the literal fast path (SimpleFind) and the general reference; rstr_find and rset_find of "
+         "the repository are compared with both and with each other, groups poisoned; the classifier is checked on "
+         "every short operator string.",
+    design="8/C12", technique="TLA+ fast-path transcription vs general reference in TLC; rstr.c vs rset.c vs spec (M2)",
+    note="Lines are newline-terminated as every caller guarantees; comparisons with a fired depth counter are discarded.")
+
 NOT_YET = {}
 
 def main():
